@@ -1,6 +1,7 @@
 import Rv.Oracle.Stateless
 import Rv.Oracle.Cache
 import Rv.Oracle.Event
+import Rv.Oracle.Auth
 /-
   Rv.Oracle — dispatch of op lines to the stateless and stateful model drivers.
 -/
@@ -9,6 +10,7 @@ namespace Rv.Oracle
 structure OState where
   cache : Cache.CState := {}
   ev : Event.EState := {}
+  au : Auth.AState := {}
 
 def splitArrow : List String → List String → (List String × String)
   | [], acc => (acc.reverse, "")
@@ -24,6 +26,12 @@ def step (os : OState) (line : String) : OState × String :=
   | "ev" :: _ =>
     let (e, m, v) := Event.step os.ev fs obs
     ({ os with ev := e }, m ++ "\t" ++ v)
+  | "au" :: _ =>
+    let (a, m, v) := Auth.step os.au fs obs
+    ({ os with au := a }, m ++ "\t" ++ v)
+  | "ls" :: _ =>
+    -- C14: the theorem says every schedule completes; the model observation is the constant "completed"
+    (os, "completed\t" ++ (if obs = "completed" then "ok" else if obs.startsWith "HANG" then "bad:operation-does-not-complete" else "bad:" ++ obs))
   | _ => (os, stepFields fs obs)
 
 end Rv.Oracle
